@@ -21,6 +21,8 @@ UNITS = [
          requires=[("wf", "wf_segments(path.segments@)")],
          ensures=[
              ("ok", "r is Ok"),
+             # the one evaluation every entry point projects (C12, first clause): a function of (query, document)
+             ("eval", "r matches Ok(v) && qnodes(v@) == impl_query(*path, value)"),
              # C01: the RFC nodes with their multiplicities, for EVERY well-formed query
              ("nodes", "r matches Ok(v) && ms(qnodes(v@)) == ms(rfc_query(*path, value))"),
              # C02: in RFC order whenever no multi-selector segment receives several input nodes
@@ -35,6 +37,7 @@ UNITS = [
     Unit(name="js_path", file=F, fn="js_path", order=72, serves=["C01", "C08"],
          ensures=[
              ("parse_err", "parsed(path@) is None ==> r is Err"),
+             ("eval", "parsed(path@) matches Some(q) ==> r matches Ok(v) && qnodes(v@) == impl_query(q, value)"),
              ("nodes", "parsed(path@) matches Some(q) ==> r matches Ok(v) && ms(qnodes(v@)) == ms(rfc_query(q, value))"),
              ("nodelist", "parsed(path@) matches Some(q) ==> r matches Ok(v) && (segs_exact(q.segments@, true) ==> qnodes(v@) == rfc_query(q, value))"),
          ]),
@@ -42,6 +45,8 @@ UNITS = [
          shapes=[("R2vv", 1)],
          ensures=[
              ("parse_err", "parsed(path@) is None ==> r is Err"),
+             ("projection", "parsed(path@) matches Some(q) ==> r matches Ok(v) && v@.len() == impl_query(q, value).len() "
+                            "&& forall|i: int| 0 <= i < v@.len() ==> #[trigger] v@[i] == impl_query(q, value)[i].inner"),
              ("values", "parsed(path@) matches Some(q) ==> r matches Ok(v) && (segs_exact(q.segments@, true) ==> "
                         "v@.len() == rfc_query(q, value).len() && forall|i: int| 0 <= i < v@.len() ==> #[trigger] v@[i] == rfc_query(q, value)[i].inner)"),
          ],
@@ -50,6 +55,8 @@ UNITS = [
          shapes=[("R2vv", 1)],
          ensures=[
              ("parse_err", "parsed(path@) is None ==> r is Err"),
+             ("projection", "parsed(path@) matches Some(q) ==> r matches Ok(v) && v@.len() == impl_query(q, value).len() "
+                            "&& forall|i: int| 0 <= i < v@.len() ==> (#[trigger] v@[i])@ == impl_query(q, value)[i].path"),
              ("paths", "parsed(path@) matches Some(q) ==> r matches Ok(v) && (segs_exact(q.segments@, true) ==> "
                        "v@.len() == rfc_query(q, value).len() && forall|i: int| 0 <= i < v@.len() ==> (#[trigger] v@[i])@ == rfc_query(q, value)[i].path)"),
          ],
